@@ -294,7 +294,9 @@ def d_str(p):
     return s.decode("latin-1")
 
 
-def strict_decode(data, allow_multi_xy=True):
+def strict_decode(data, allow_multi_xy=True, wide_numbers=False):
+    # wide_numbers: layer / type words are taken as unsigned 16-bit values and not range-checked (gdstk writes numbers
+    # above 32767 that way; the specification stops at 32767)
     it = list(records(data))
     i = 0
     notes = set()
@@ -346,7 +348,9 @@ def strict_decode(data, allow_multi_xy=True):
             k = el["kind"]
             if k in ("boundary", "box", "path", "text"):
                 el["layer"] = d_i2(take(LAYER), 1)[0]
-                if not 0 <= el["layer"] <= 32767:
+                if wide_numbers:
+                    el["layer"] &= 0xFFFF
+                if not 0 <= el["layer"] <= (65535 if wide_numbers else 32767):
                     raise FormatError("layer %d" % el["layer"])
             if k in ("boundary", "path"):
                 el["datatype"] = d_i2(take(DATATYPE), 1)[0]
@@ -356,7 +360,9 @@ def strict_decode(data, allow_multi_xy=True):
                 el["datatype"] = d_i2(take(TEXTTYPE), 1)[0]
                 p = opt(PRESENTATION)
                 el["presentation"] = d_u2(p, 1)[0] if p is not None else None
-            if k in ("boundary", "box", "path", "text") and not 0 <= el["datatype"] <= 32767:
+            if wide_numbers and "datatype" in el:
+                el["datatype"] &= 0xFFFF
+            if k in ("boundary", "box", "path", "text") and not 0 <= el["datatype"] <= (65535 if wide_numbers else 32767):
                 raise FormatError("datatype %d" % el["datatype"])
             if k in ("path", "text"):
                 p = opt(PATHTYPE)
